@@ -171,7 +171,9 @@ def main():
         insts, ops = [], []
         for _ in range(nper):
             a, b = synthsys.gen_pair(rng, sysd)
-            inst = (a, b, synthsys.alt(rng, sysd, a), rng.choice([["int", "3", "1"], ["float", "5", "2"], ["int", "-12", "1"], ["float", "7", "8"]]), rng.choice(KS[:3] + [["int", "4", "1"]]))
+            inst = (a, b, synthsys.alt(rng, sysd, a), rng.choice([["int", "3", "1"], ["float", "5", "2"], ["int", "-12", "1"], ["float", "7", "8"],
+                                                                          # large magnitudes with a fractional part (exact in binary): nothing may round them to whole numbers
+                                                                          ["float", "2469135781", "2"], ["float", "-493827157", "4"], ["float", "2199023255553", "2"], ["float", "123456789012345", "8"]]), rng.choice(KS[:3] + [["int", "4", "1"]]))
             insts.append(inst); ops += bundle(*inst)
         jobs.append((k, sysd, insts, ops))
     with concurrent.futures.ThreadPoolExecutor(max_workers=12) as ex:
